@@ -203,6 +203,20 @@ theorem fpFold_track (l : List (Nat × Nat)) : ∀ (acc : State × List PartTrac
         · rw [if_pos h2, if_pos (hmem.2 (Or.inr h2))]
         · rw [if_neg h2, if_neg (fun hh => (hmem.1 hh).elim h1 h2)]
 
+theorem fpFold_tracks_length (l : List (Nat × Nat)) : ∀ (acc : State × List PartTrack),
+    (fpFold l acc).1.tracks.length = acc.1.tracks.length := by
+  induction l with
+  | nil => intro acc; rfl
+  | cons x xs ih =>
+    intro acc
+    obtain ⟨st, c⟩ := acc
+    by_cases h : (st.track x.1).samples = []
+    · rw [fpFold_cons_nil _ _ _ _ h]; exact ih _
+    · rw [fpFold_cons_ne _ _ _ _ h, ih]; simp [State.setTrack]
+
+theorem fpState_tracks_length (st : State) (si : Nat) : (fpState st si).tracks.length = st.tracks.length :=
+  fpFold_tracks_length _ _
+
 /-- `finalizePart` empties the sample lists of the stream's tracks and touches nothing else. -/
 theorem fpState_track (st : State) (si tj : Nat) :
     (fpState st si).track tj = if tj ∈ (st.stream si).tracks then clearSamples (st.track tj) else st.track tj := by
